@@ -158,6 +158,12 @@ class SVarList:
         return SX.ctx().branch(self.pred(kid(name)))
 
     def __iadd__(self, lst):
+        if isinstance(lst, SVarList):
+            old, new = self.pred, lst.pred
+            self.pred = lambda k, old=old, new=new: z3.Or(old(k), new(k))
+            self.empty = z3.And(self.empty, lst.empty) if z3.is_expr(self.empty) and z3.is_expr(lst.empty) else z3.BoolVal(False)
+            self.mutated = True
+            return self
         ids = [kid(x) for x in lst]
         old = self.pred
         self.pred = lambda k, old=old, ids=ids: z3.Or(old(k), *[k == q for q in ids])
@@ -168,6 +174,9 @@ class SVarList:
 
     def append(self, x):
         self.__iadd__([x])
+
+    def extend(self, lst):
+        self.__iadd__(lst)
 
     def __iter__(self):
         raise SX.PathAbort('iteration over a symbolic list outside a loop contract')
